@@ -18,6 +18,7 @@ import (
 	"sync/atomic"
 	"syscall"
 	"time"
+	"unsafe"
 )
 
 // Info describes a monitor for the evidence file.
@@ -152,7 +153,17 @@ func runWorker(prop, tier, shardS, nshardsS, dir string) int {
 	}
 	ctx := newCtx(prop, tier, seedFromEnv(), shard, nshards, kf)
 	ctx.openCrashBuf(filepath.Join(dir, fmt.Sprintf("crash.%d", shard)))
-	go caseWatchdog(perCaseCPUSeconds(m))
+	// The monitor runs on one OS thread (except C14, whose rounds start goroutines): the watchdog
+	// then reads THAT thread's CPU clock.  Process CPU time also contains the runtime's own threads
+	// (GC workers, spinning Ms), which on an oversubscribed machine can burn seconds while the
+	// monitor's thread is not scheduled at all - a thorough run of C08 under a load of 60 lost a
+	// shard that way on a case that takes microseconds.
+	watchTid := 0
+	if prop != "C14" {
+		runtime.LockOSThread()
+		watchTid = syscall.Gettid()
+	}
+	go caseWatchdog(perCaseCPUSeconds(m), watchTid)
 	func() {
 		// a panic that escapes here is a defect of the harness itself (calls into /repo are
 		// recovered inside Ctx.Call): report the check as broken, accuse nobody
@@ -219,17 +230,39 @@ func processCPU() time.Duration {
 // caseWatchdog ends the worker when one and the same case has consumed more than limit
 // seconds of CPU.  It only watches the monitor's own progress counter; it decides nothing:
 // the driver re-runs the attributed case alone before anything is reported.
-func caseWatchdog(limit int) {
+func caseWatchdog(limit int, tid int) {
+	cpu := processCPU
+	if tid > 0 {
+		// the CPU-time clock of one thread: MAKE_THREAD_CPUCLOCK(tid, CPUCLOCK_SCHED)
+		clock := uintptr((^uint32(tid))<<3 | 6)
+		probe := func() (time.Duration, bool) {
+			var ts syscall.Timespec
+			if _, _, e := syscall.Syscall(syscall.SYS_CLOCK_GETTIME, uintptr(int32(clock)), uintptr(unsafe.Pointer(&ts)), 0); e != 0 {
+				return 0, false
+			}
+			return time.Duration(ts.Sec)*time.Second + time.Duration(ts.Nsec), true
+		}
+		if _, ok := probe(); ok {
+			cpu = func() time.Duration { d, _ := probe(); return d }
+		}
+	}
 	last := atomic.LoadInt64(&progress)
-	start := processCPU()
+	start, pstart := cpu(), processCPU()
 	for {
 		time.Sleep(250 * time.Millisecond)
 		now := atomic.LoadInt64(&progress)
 		if now != last {
-			last, start = now, processCPU()
+			last, start, pstart = now, cpu(), processCPU()
 			continue
 		}
-		if used := processCPU() - start; used > time.Duration(limit)*time.Second {
+		// the monitor thread's own CPU time, or (backstop, e.g. a runaway recursion whose growing
+		// stack keeps the collector's threads busy and the monitor thread waiting) six times as
+		// much CPU of the whole process
+		used := cpu() - start
+		if pu := processCPU() - pstart; pu > 6*time.Duration(limit)*time.Second {
+			used = pu
+		}
+		if used > time.Duration(limit)*time.Second {
 			fmt.Fprintf(os.Stderr, "WATCHDOG: the current case has used %.0fs of CPU (SIGXCPU-equivalent)\n", used.Seconds())
 			os.Exit(WatchdogExit)
 		}
